@@ -156,3 +156,309 @@ def plan_C06(tier):
         min_distinct=100,
         min_feats={"stale_pop_with_pending_entries": 10},
     )
+
+
+def std_jobs(tier, rel, chk, asan, miri=0, miri_params=None, params=None, cpus_sweep=None):
+    """rel/chk/asan(/miri) jobs with quick sizes; thorough = 20x (miri 10x)."""
+    a = Alloc()
+    q = tier == "quick"
+    k = 1 if q else 20
+    jobs = []
+    base = dict(params or {})
+    if cpus_sweep:
+        masks = cpus_sweep if q else list(range(1, 17))
+        for c in masks:
+            pr = dict(base)
+            pr["delay"] = 1 + c
+            jobs.append(a.job("rel", max(1, rel * k // len(masks)), shards=2 if q else 4, cpus=c, params=pr))
+        for c in (masks if not q else masks[::2]):
+            pr = dict(base)
+            pr["delay"] = 100 + c
+            jobs.append(a.job("chk", max(1, chk * k // len(masks)), shards=2, cpus=c, params=pr))
+    else:
+        jobs.append(a.job("rel", rel * k, params=base))
+        jobs.append(a.job("chk", chk * k, params=base))
+    if asan:
+        jobs.append(a.job("asan", asan * (1 if q else 10), timeout=1200, params=base))
+    if miri and (not q or miri_params is not None):
+        mp = dict(base)
+        mp.update(miri_params or {})
+        jobs.append(a.job("miri", miri * (1 if q else 8), shards=16, params=mp, timeout=2400, miri_cpus=3))
+    return jobs, a
+
+
+def plan_C07(tier):
+    jobs, a = std_jobs(tier, 120000, 30000, 10000)
+    if tier != "quick":
+        jobs.append(a.job("miri", 200, shards=16, params={"max_order": 6}, timeout=1800))
+    return dict(
+        jobs=jobs,
+        rule="case = (AdjacencyListWeighted<isize> digraph, order 1-14, weight family non-negative / potentials (negative arcs, no negative circuit) / negative DAG / planted negative circuit (reachable or cut off) / mixed negative / +-10^6 on acyclic; "
+        "arc count forced through every residue mod 4; BellmanFordMoore from EVERY in-range source) judged against Bellman-Ford on the model; distinct = hash of (V, A, w); non-trivial = a negative arc is reachable from some source",
+        what="reference-model comparison",
+        min_distinct=100,
+        min_feats={"arcs%4=0": 20, "arcs%4=1": 20, "arcs%4=2": 20, "arcs%4=3": 20, "cases_with_None_required": 20, "cases_with_Some_and_negative_arcs": 20},
+    )
+
+
+def plan_C08(tier):
+    jobs, a = std_jobs(tier, 80000, 20000, 8000)
+    if tier != "quick":
+        jobs.append(a.job("miri", 200, shards=16, params={"max_order": 6}, timeout=1800))
+    return dict(
+        jobs=jobs,
+        rule="case = (AdjacencyListWeighted<isize> digraph without negative circuit, order 1-12, weight families of C07 minus the circuit-producing ones); every entry of FloydWarshall::distances() compared with Bellman-Ford on the model from every vertex, "
+        "and every row with BellmanFordMoore; distinct = hash of (V, A, w); non-trivial = asymmetric distance matrix with (an infinite and a negative entry) or at least 3 distinct finite values",
+        what="reference-model comparison",
+        min_distinct=100,
+    )
+
+
+def plan_C09(tier):
+    jobs, a = std_jobs(tier, 100000, 25000, 8000)
+    if tier != "quick":
+        jobs.append(a.job("miri", 200, shards=16, params={"max_order": 7}, timeout=1800))
+    return dict(
+        jobs=jobs,
+        rule="case = (digraph of 18 families (SCCs joined by a DAG with tree/back/cross arcs prominent), order 1-16, one of five types or a non-contiguous AdjacencyMap); Tarjan::components() must be a partition of V and equal the classes of mutual reachability on the model; "
+        "distinct = hash of (type, V, A); non-trivial = at least 2 components, one of size >= 2",
+        what="reference-model comparison",
+        min_distinct=100,
+    )
+
+
+def plan_C10(tier):
+    a = Alloc()
+    q = tier == "quick"
+    jobs = [
+        a.job("rel", 40000 if q else 400000),
+        a.job("chk", 10000 if q else 100000),
+        a.job("asan", 6000 if q else 40000, timeout=1200),
+    ]
+    if not q:
+        jobs.append(dict(engine="rel", lo=0, hi=1 << 20, shard=1 << 16, params={"mode": "ex5"}))
+        jobs.append(a.job("miri", 160, shards=16, params={"max_order": 6}, timeout=1800))
+    return dict(
+        jobs=jobs,
+        rule="case = AdjacencyMap with contiguous ids: ALL digraphs of order <= 4 (indices 0..4164, exhaustive for that sub-space in the rel engine), order 5 sampled (thorough: all 2^20), random orders 6-9 with density <= .5, a blocked/unblocked family, structured families; "
+        "Johnson75::circuits() compared as a set and as a list (duplicates, canonical rotation) with a brute-force enumeration on the model; distinct = hash of (V, A); non-trivial = at least 2 circuits sharing a vertex",
+        what="reference-model comparison (brute-force enumeration)",
+        min_distinct=100,
+        min_feats={"all_order_le_4": 4165},
+        exhaustive=False,
+    )
+
+
+def plan_C11(tier):
+    jobs, a = std_jobs(tier, 12000, 3000, 3000, miri=48, miri_params={"max_order": 6}, cpus_sweep=[1, 2, 3, 5, 8, 16])
+    if tier != "quick":
+        jobs.append(a.job("tsan", 1500, shards=8, params={"max_order": 24, "delay": 7}, timeout=1800))
+    return dict(
+        jobs=jobs,
+        rule="case = (type kind: AdjacencyList / AdjacencyMap / non-contiguous AdjacencyMap / AdjacencyMatrix / EdgeList / weighted converse; operands A, B, C of 18 families, orders 1-40, equal / +1 / unrelated orders, overlapping sparse key sets); complement, converse, union, filter_vertices results fully observed against set algebra on the model, "
+        "plus involution / commutativity / idempotence / associativity and operand-unchanged; threaded operations run under CPU masks (cpus in engines[].configs) with seeded delays and the tiling monitor on the hook log; "
+        "distinct = hash of (kind, A, B, C); non-trivial = more rows than available threads, operands of different order, or a non-contiguous operand",
+        what="reference-model comparison + tiling monitor over hook event log",
+        min_distinct=100,
+    )
+
+
+def plan_C12(tier):
+    jobs, a = std_jobs(tier, 24000, 6000, 4000, miri=48, miri_params={"max_order": 6}, cpus_sweep=[1, 2, 3, 5, 8, 16])
+    if tier != "quick":
+        jobs.append(a.job("tsan", 1500, shards=8, params={"max_order": 24, "delay": 7, "kind": 0}, timeout=1800))
+    return dict(
+        jobs=jobs,
+        rule="case = (one of 7 type variants incl. non-contiguous AdjacencyMap; digraph D from boundary families: tournament/semicomplete/complete moved by one pair (also with the arc count kept), circulant and symmetric +-1 arc, plus the 18 general families, orders 1-40; H derived from D by deleting arcs / a vertex, adding an arc or a vertex); "
+        "all 8 unary predicates on D and H and all pair predicates in both directions compared with the definitions on the model; AdjacencyList::is_semicomplete additionally under CPU masks with the tiling monitor; "
+        "distinct = hash of (type, D, H); non-trivial = D passes the implementation's size shortcut (so the pair scan decides) or |V(D)| != |V(H)|",
+        what="reference-model comparison + tiling monitor",
+        min_distinct=100,
+        min_feats={"true:is_tournament": 20, "true:is_semicomplete": 20, "true:is_complete": 20, "true:is_regular": 20, "true:H_spanning_subdigraph_of_D": 20},
+    )
+
+
+def plan_C13(tier):
+    a = Alloc()
+    q = tier == "quick"
+    jobs = [
+        a.job("asan", 9000 if q else 90000, params={"part": "probe", "noalloc": 1}, timeout=1200),
+        a.job("asan", 4000 if q else 60000, params={"part": "prog", "noalloc": 1}, timeout=1200),
+        a.job("asan", 160 if q else 1600, params={"part": "leak"}, timeout=1200),
+        a.job("chk", 9000 if q else 90000, params={"part": "probe"}),
+        a.job("chk", 4000 if q else 60000, params={"part": "prog"}),
+        a.job("rel", 9000 if q else 90000, params={"part": "probe"}),
+        a.job("rel", 4000 if q else 60000, params={"part": "prog"}),
+        a.job("rel", 400 if q else 4000, params={"part": "leak"}),
+        a.job("miri", 384 if q else 3840, shards=16 if q else 64, params={"part": "probe", "max_order": 5, "noalloc": 1}, timeout=2400, miri_cpus=3),
+    ]
+    if not q:
+        jobs.append(a.job("miri", 640, shards=32, params={"part": "prog", "max_order": 5, "noalloc": 1}, timeout=2400, miri_cpus=2))
+        jobs.append(a.job("miri", 80, shards=16, params={"part": "leak"}, timeout=2400, miri_cpus=3))
+        jobs.append(a.job("tsan", 3000, shards=8, params={"part": "prog"}, timeout=1800))
+    return dict(
+        jobs=jobs,
+        rule="three workloads, each case in a sharded child process whose outcome (return / Rust panic vs sanitizer report, UB-precondition abort, signal) is the oracle: (1) probe catalogue, index mod N selects the entry point "
+        "(12 traversal/Tarjan entry points x 6 digraph variants, 10 query groups x 6, mutation x 6, complement/converse/union x 5, 26 special probes: Dijkstra*, BFM, FW, user-built PredecessorTree, DistanceMatrix incl. huge orders, AdjacencyMatrix::empty(2^32), "
+        "order-0 maps, Johnson75 on non-contiguous maps, generators with boundary parameters, conversions, invalid iterators), arguments from {0, last, order, order+1, gap ids, 1000, 2^20}; (2) random programs of 2-6 calls over a value pool with results fed back as operands; "
+        "(3) heap growth: live bytes of a counting allocator after 8 and after 32 further repetitions of each of 40 operations must not grow proportionally; distinct = hash of the written-out probe/program; non-trivial = uses an out-of-range / far / gap id, a non-contiguous map, an order-0 map or a wrap-around order",
+        what="process-outcome oracle under ASan+LSan, Miri, debug UB-precondition checks; counting-allocator monitor",
+        min_distinct=100,
+        min_feats={"part=probe": 1000, "part=prog": 1000, "part=leak": 40},
+    )
+
+
+C14_CASES = 7 * 132 + 147 + 3 + 13
+
+
+def plan_C14(tier):
+    q = tier == "quick"
+    jobs = []
+    masks = [1, 2, 3, 5, 8, 16] if q else list(range(1, 17))
+    for c in masks:
+        jobs.append(dict(engine="rel", lo=0, hi=C14_CASES, shard=(C14_CASES + 3) // 4, cpus=c, params={"delay": 10 + c}))
+    for c in ([2, 16] if q else [1, 2, 3, 7, 16]):
+        jobs.append(dict(engine="chk", lo=0, hi=C14_CASES, shard=(C14_CASES + 7) // 8, cpus=c, params={"delay": 50 + c}))
+    jobs.append(dict(engine="asan", lo=0, hi=C14_CASES, shard=(C14_CASES + 15) // 16, params={"delay": 3}, timeout=1200))
+    if not q:
+        jobs.append(dict(engine="miri", lo=0, hi=C14_CASES, shard=(C14_CASES + 63) // 64, params={"max_order": 12}, timeout=2400, miri_cpus=3))
+        jobs.append(dict(engine="tsan", lo=132, hi=264, shard=17, params={"delay": 5}, timeout=1800))
+    return dict(
+        jobs=jobs,
+        rule="deterministic enumeration, index -> (generator, parameters): empty/complete/circuit/cycle/path/star/wheel at every order 1..130, 192, 257 (wheel from 4); biclique(m, n) for (m, n) in [1,12]^2 plus (1,64), (64,1), (33,31); trivial, claw, utility; "
+        "inadmissible parameters (order 0 for the seven generators, wheel 1-3, biclique with a zero side) must panic; every case builds the digraph in all four unweighted types, observes each against the closed form written from the statement and compares the types with each other; "
+        "AdjacencyList::complete runs under every listed CPU mask with seeded delays and the tiling monitor; distinct = (generator, parameters); non-trivial = order above the thread count, order^2 not a multiple of 64, unequal biclique sides, or an inadmissible parameter",
+        what="closed-form comparison, exhaustive for the stated parameter ranges; tiling monitor",
+        min_distinct=900,
+        exhaustive=True,
+        min_feats={"inadmissible": 13, "complete": 132, "wheel": 132, "biclique": 147},
+    )
+
+
+def sweep_shared(tier, n_quick, n_thorough, reps_quick, reps_thorough, extra_params=None):
+    """every CPU mask x several repetitions over the SAME index range, so that the driver can
+    compare the result digests of one case across configurations and repetitions"""
+    q = tier == "quick"
+    n = n_quick if q else n_thorough
+    masks = [1, 2, 3, 5, 8, 16] if q else list(range(1, 17))
+    reps = reps_quick if q else reps_thorough
+    jobs = []
+    for c in masks:
+        for rep in range(reps):
+            pr = dict(extra_params or {})
+            pr["delay"] = 1000 * (rep + 1) + c if rep else 0
+            jobs.append(dict(engine="rel" if rep % 2 == 0 else "chk", lo=0, hi=n, shard=(n + 1) // 2, cpus=c, params=pr))
+    return jobs, n
+
+
+def plan_C15(tier):
+    q = tier == "quick"
+    jobs, n = sweep_shared(tier, 3000, 20000, 2, 4)
+    a = Alloc()
+    a.next = n
+    jobs.append(a.job("rel", 40000 if q else 800000, params={"draws": 20000 if q else 100000}))
+    jobs.append(a.job("asan", 3000 if q else 30000, timeout=1200, params={"draws": 2000}))
+    jobs.append(a.job("miri", 64 if q else 512, shards=16 if q else 32, params={"max_order": 6, "draws": 50}, timeout=2400, miri_cpus=3))
+    if not q:
+        for mc in (1, 2, 4):
+            jobs.append(dict(engine="miri", lo=0, hi=128, shard=8, params={"max_order": 6, "draws": 50}, timeout=2400, miri_cpus=mc, miri_seed=mc))
+        jobs.append(a.job("tsan", 3000, shards=8, params={"max_order": 40, "delay": 9, "draws": 1000}, timeout=1800))
+    return dict(
+        jobs=jobs,
+        rule="case = (generator random_tournament / random_recursive_tree / erdos_renyi, one of four types (AdjacencyMap twice as often, with hooks, delays and tiling monitor), order 1-64/100/129, seed from {0, 1, 2^63, u64::MAX, random}, p from {0, eps, .25, .5, .5+eps, .75, 1-eps, 1}; p outside [0,1] incl. NaN/inf must panic) or 20k-100k next_f64 draws; "
+        "every result is checked structurally and against a second call; the first index range is run under every CPU mask several times with different delay seeds and the driver compares result digests (thread-count dependent AdjacencyMap generators only inside one mask); "
+        "distinct = (type, generator, order, seed, p); non-trivial = order above the thread count",
+        what="structural oracle + repeat-equality + cross-process digest comparison + tiling monitor",
+        min_distinct=100,
+        min_feats={"next_f64": 20, "inadmissible_p": 20, "result_digest_groups_observed_2+_times": 100},
+    )
+
+
+def plan_C16(tier):
+    jobs, a = std_jobs(tier, 40000, 10000, 4000)
+    if tier != "quick":
+        jobs.append(a.job("miri", 96, shards=16, params={"max_order": 6}, timeout=1800))
+    return dict(
+        jobs=jobs,
+        rule="case = (digraph of 18 families, order 1-40, often with an isolated top vertex; source type of 4): all 4 targets from that source observed against the model, compared with direct construction and converted back (round trip), a chain of 2-4 conversions, both weighted targets (all weights 1), "
+        "and for half of the cases the iterator builders with valid rows/arcs (duplicates, shuffled) and invalid ones (self-loop, outside head, empty where documented) that must panic; distinct = hash of (source type, V, A); non-trivial = at least 2 arcs and an isolated top vertex",
+        what="reference-model comparison",
+        min_distinct=100,
+        min_feats={"iter_builders": 100},
+    )
+
+
+def plan_C17(tier):
+    q = tier == "quick"
+    jobs, n = sweep_shared(tier, 2400, 8000, 3, 6)
+    jobs.append(dict(engine="asan", lo=0, hi=1600 if q else 8000, shard=100 if q else 500, params={"delay": 77}, timeout=1200))
+    jobs.append(dict(engine="miri", lo=0, hi=64 if q else 256, shard=4 if q else 8, params={"max_order": 5}, timeout=2400, miri_cpus=3, miri_seed=1))
+    if not q:
+        for mc in (1, 2, 4):
+            for ms in range(4):
+                jobs.append(dict(engine="miri", lo=0, hi=64, shard=8, params={"max_order": 5}, timeout=2400, miri_cpus=mc, miri_seed=10 * mc + ms))
+        for c in (2, 5, 16):
+            jobs.append(dict(engine="tsan", lo=0, hi=1600, shard=200, cpus=c, params={"delay": 31 + c, "max_order": 65}, timeout=1800))
+    return dict(
+        jobs=jobs,
+        rule="case = index mod 8 selects AdjacencyList::{complement, complete, degree_sequence, is_semicomplete, union}, AdjacencyMap::{union, random_tournament, erdos_renyi}; order from {1-5,7,8,9,15,16,17,31,33,47,64,65,100}; densities 0/.1/.5/.9/1; unions of equal, +1, halved and unrelated orders, map unions with shifted / sparse keys; "
+        "semicomplete digraphs whose only missing pair sits in the first / last / a random chunk; the SAME index range runs under every CPU mask (taskset) several times with different delay seeds: each run compares with the single-threaded model and checks the tiling of the logged row ranges, "
+        "the driver compares result digests across all masks and repetitions (seeded map generators only inside one mask); distinct = hash of (operation, inputs); non-trivial = more rows than available threads (counted per mask)",
+        what="reference-model comparison in every configuration + cross-configuration digest comparison + tiling monitor over the hook log (+ TSan / Miri schedules in thorough)",
+        min_distinct=100,
+        min_feats={"result_digest_groups_observed_2+_times": 500},
+    )
+
+
+def plan_C18(tier):
+    jobs, a = std_jobs(tier, 200000, 50000, 10000)
+    if tier != "quick":
+        jobs.append(a.job("miri", 160, shards=16, params={"max_order": 5}, timeout=1800))
+    return dict(
+        jobs=jobs,
+        rule="case = (usize matrix written through IndexMut by (u,v) or flat index with entries from tiny value sets <= infinity (many ties, all-infinite rows/matrices), isize matrix with negative entries, or a matrix produced by FloydWarshall; order 1-12); "
+        "new/indexing/eccentricities/diameter/center/periphery/is_connected compared with their definitions; distinct = hash of (kind, entries); non-trivial = a tie among minimal or maximal eccentricities",
+        what="reference-definition comparison",
+        min_distinct=100,
+    )
+
+
+def plan_C19(tier):
+    q = tier == "quick"
+    ex5 = 2 + 9 + 64 + 625 + 7776
+    ex6 = ex5 + 117649
+    n_ex = ex5 if q else ex6
+    par = {"exhaustive_len": 5 if q else 6}
+    jobs = [
+        dict(engine="rel", lo=0, hi=n_ex, shard=-(-n_ex // 16), params=par),
+        dict(engine="chk", lo=0, hi=ex5, shard=-(-ex5 // 16), params=par),
+        dict(engine="asan", lo=0, hi=ex5, shard=-(-ex5 // 16), params=par, timeout=1200),
+        dict(engine="rel", lo=n_ex, hi=n_ex + (20000 if q else 400000), shard=(20000 if q else 400000) // 16, params=par),
+        dict(engine="asan", lo=n_ex + 400000, hi=n_ex + 400000 + (2000 if q else 20000), shard=(2000 if q else 20000) // 16, params=par, timeout=1200),
+    ]
+    if not q:
+        jobs.append(dict(engine="miri", lo=0, hi=2 + 9 + 64 + 625, shard=44, params=par, timeout=2400))
+    return dict(
+        jobs=jobs,
+        rule="ALL predecessor vectors of length <= %d (each entry None or any in-range vertex; %d vectors, exhaustive for that sub-space) x all starts x all targets (search and search_by) and predicates {pred.is_none(), v > k, never, always, self-reference}, "
+        "then random vectors of length 7-300 (random, one long chain, rho, forest, star into a self-referential vertex); result compared with the functional-graph walk; termination restated as at most 2n+4 predicate evaluations (a counting predicate unwinds beyond that); "
+        "distinct = the vector; non-trivial = the chain from some start revisits a vertex" % (5 if q else 6, n_ex),
+        what="reference-model comparison, exhaustive for short vectors; bounded-step termination monitor",
+        min_distinct=1000,
+        exhaustive=True,
+        min_feats={"exhaustive_len=5": 7776},
+    )
+
+
+def plan_C20(tier):
+    jobs, a = std_jobs(tier, 60000, 15000, 6000)
+    if tier != "quick":
+        jobs.append(a.job("miri", 96, shards=16, params={"max_order": 6}, timeout=1800))
+    return dict(
+        jobs=jobs,
+        rule="case = (type of 6 or the is_complete-via-equality check; digraph of 18 families, order 1-40): pairs of histories built to coincide (shuffled adds with add+remove detours and re-adds, From<iter>, conversion round trip, generator vs add_arc, toggle history, overwritten weights, two sparse-id map histories) must be ==, cmp Equal and hash-equal (DefaultHasher); "
+        "pairs built to differ minimally (one arc flipped, one weight, order+1 with the same arcs, an extra isolated map vertex) must be != with a consistent cmp; a clone is equal, and after mutating either side both are fully observed against their models; "
+        "distinct = hash of (type, V, A, w); non-trivial = the detour history has a different length from the direct one",
+        what="reference-model comparison of ==, cmp, Hash, Clone",
+        min_distinct=100,
+    )
